@@ -7,5 +7,6 @@ CONSTANTS
   Alpha <- AlphaPathsQ
   JitSet <- J0
   MaxDepth = 12
+  ItemShapeTolerant = TRUE
 INVARIANT PropertyHolds
 CHECK_DEADLOCK FALSE
